@@ -21,6 +21,7 @@ type GenOpts struct {
 	AddRemove bool     // C17: v1 AddInput / RemoveInput ops
 	NoZero    bool     // exclude configurations in which a configured priority has a zero strategic share (v1 finding F4)
 	Sparse    bool     // C06: sparse arrivals, minimal H, single active priority
+	Many      bool     // occasionally a script with more than 64 inputs (Fair, simple ops)
 	Thorough  bool
 }
 
@@ -88,6 +89,16 @@ func Gen(o GenOpts) *rapid.Generator[Script] {
 		s.Div = rapid.SampledFrom(o.Dividers).Draw(t, "div")
 		s.Epilogue = "normal"
 		s.EpiNewest = rapid.Bool().Draw(t, "epinewest")
+		// such a script costs about half a second of real time: about 1 case in 400 (quick) or 60
+		// (thorough). rapid draws the bit length of an integer uniformly, so a value of the top
+		// length class of 0..511 comes up once in about 2560 draws.
+		manyWidth := 16
+		if o.Thorough {
+			manyWidth = 43
+		}
+		if v := rapid.IntRange(0, 511).Draw(t, "many"); o.Many && v >= 256 && v < 256+manyWidth {
+			return genMany(t, s)
+		}
 		wide := rapid.IntRange(0, 9).Draw(t, "wide") == 0
 		maxN := 4
 		if o.Thorough {
@@ -356,6 +367,68 @@ func Gen(o GenOpts) *rapid.Generator[Script] {
 	})
 }
 
+// genMany : 33..38 or 65..70 inputs with the priorities n..1, Fair, H = n..n+3 (every priority has one
+// handler, a few have two), a short script of writes, closes, receives and releases.
+func genMany(t *rapid.T, s Script) Script {
+	s.Div = "fair"
+	// just above a machine-word boundary (a bookkeeping mask, a fixed-size table)
+	bound := pick(t, "manybound", 64, 64, 64, 32)
+	n := bound + rapid.IntRange(1, 6).Draw(t, "manyn")
+	s.H = uint(n + rapid.IntRange(0, 3).Draw(t, "manyh"))
+	if s.Ver == 1 && !s.Simple {
+		s.OutCap = pick(t, "outcap", 0, 1, 16, 100)
+		s.FbCap = pick(t, "fbcap", 0, 1, 16, 100)
+	}
+	lowHeavy := rapid.IntRange(0, 3).Draw(t, "lowheavy") != 0
+	for p := n; p >= 1; p-- {
+		pre := pick(t, "prefill", 0, 0, 1, 2, 3)
+		cp := pick(t, "cap", 0, 1, 2, 8)
+		if lowHeavy && p <= n-bound {
+			// the lowest priorities still have data, most of it still in the hands of their producers,
+			// when all the others are done
+			pre = pick(t, "prefilllow", 3, 5, 8, 12)
+			cp = pick(t, "caplow", 0, 1, 2)
+		} else if lowHeavy {
+			pre = pick(t, "prefillhigh", 0, 0, 0, 1)
+		}
+		s.Ins = append(s.Ins, In{P: uint(p), Cap: cp, Prefill: pre})
+	}
+	h := int(s.H)
+	if rapid.Bool().Draw(t, "closehigh") {
+		// all inputs but the lowest few are closed early; the low ones stay open, idle at times,
+		// and get their data later
+		keep := rapid.IntRange(1, n-bound+rapid.IntRange(0, 1).Draw(t, "keepmore")).Draw(t, "keeplow")
+		for p := 1; p <= keep; p++ {
+			// room for what is written later, so that their producers get to close them in the end
+			s.Ins[n-p].Cap, s.Ins[n-p].Prefill = 8, pick(t, "keepprefill", 0, 0, 1)
+		}
+		s.Ops = append(s.Ops, Op{K: "C", P: uint(keep + 1), M: 1}, Op{K: "D"}, Op{K: "FM", Picks: rapid.SliceOfN(rapid.IntRange(0, 3*h), h, h).Draw(t, "relall")}, Op{K: "D"},
+			Op{K: "T", N: rapid.IntRange(1, 2000).Draw(t, "idle")}, Op{K: "D"},
+			Op{K: "W", P: uint(rapid.IntRange(1, keep).Draw(t, "latep")), N: pick(t, "laten", 1, 3, 7)}, Op{K: "D"})
+	}
+	for i, nops := 0, rapid.IntRange(1, 12).Draw(t, "nops"); i < nops; i++ {
+		switch rapid.IntRange(0, 9).Draw(t, "k") {
+		case 0, 1:
+			s.Ops = append(s.Ops, Op{K: "W", P: uint(rapid.IntRange(1, n).Draw(t, "wp")), N: pick(t, "wn", 1, 2, 5)})
+		case 2:
+			s.Ops = append(s.Ops, Op{K: "C", P: uint(rapid.IntRange(1, n).Draw(t, "cp"))})
+		case 3, 4, 5:
+			s.Ops = append(s.Ops, Op{K: "D"})
+		case 6:
+			s.Ops = append(s.Ops, Op{K: "R", N: rapid.IntRange(1, h).Draw(t, "rn")})
+		case 7:
+			k := rapid.IntRange(1, 8).Draw(t, "npick")
+			s.Ops = append(s.Ops, Op{K: "F", Picks: rapid.SliceOfN(rapid.IntRange(0, 3*h), k, k).Draw(t, "picks")})
+		case 8:
+			k := rapid.IntRange(1, h).Draw(t, "fmk")
+			s.Ops = append(s.Ops, Op{K: "FM", Picks: rapid.SliceOfN(rapid.IntRange(0, 3*h), k, k).Draw(t, "fmp")})
+		default:
+			s.Ops = append(s.Ops, Op{K: "T", N: rapid.IntRange(1, 60).Draw(t, "tn")})
+		}
+	}
+	return s
+}
+
 // Classes labels a script and its trace.
 func Classes(s Script, tr Trace) []string {
 	cl := []string{map[int]string{1: "v1", 2: "v2"}[s.Ver] + map[bool]string{true: "-simple", false: "-plain"}[s.Simple], "div:" + s.Div}
@@ -393,6 +466,12 @@ func Classes(s Script, tr Trace) []string {
 	}
 	if tr.Deadlock != "" {
 		cl = append(cl, "wedged")
+	}
+	if len(s.Ins) > 32 {
+		cl = append(cl, "more-than-32-inputs")
+	}
+	if len(s.Ins) > 64 {
+		cl = append(cl, "more-than-64-inputs")
 	}
 	return cl
 }
